@@ -44,7 +44,9 @@ Alphabet (every case is a complete configuration; inside it every non-origin gri
              object that refine() does not invalidate). In the direct 1-d histories, at every step, a chain on a deep
              copy of the used grid must equal the chain on the grid, and a second grid of the same class with another h
              (0.75 h) is built, used, refined and used in between (class-level / module-level state of the grids).
-             Re-initialised and cycled twins of one model per family / activity class take part in both kinds.
+             The re-initialised and the cycled twin of one model per family / activity class take part in both kinds
+             (direct: every grid constructor; next_level: re-initialised x {ALIAS, BINARYSEARCHTREEADAPTED1D}, cycled x
+             INVERSION).
   model-reuse (both tiers; sub "history1d"/"historynd", via "model-reuse") histories on ONE model object: a second model of
              the same class with other parameter values (1-d: mc.alphabets.DONOR_PARAMS, built directly and re-initialised;
              copula: the margins in reverse order under another copula) is built and used on the 3-point grid and on the
@@ -128,7 +130,8 @@ from mc import oracle as O
 PID = "C01"
 LEVEL = "exploration"
 RULE = (
-    "complete product model x grid constructor x refinement count (x copula x dimension), every accepted sampling method "
+    "complete product model (x construction route: direct, re-initialised, calibration cycle) x grid constructor x "
+    "refinement count (x copula x dimension), histories on one grid object and on one model object, every accepted sampling method "
     "inside each configuration, every non-origin grid state inside each configuration; a case is non-trivial when at least "
     "one state's rate was compared with the density quadrature (1-d), the reference rectangle mass (copula) or the "
     "joint-density quadrature (density); distinct = distinct case dict"
